@@ -58,6 +58,13 @@ class SimBaseError(BaseException):
     """Custom BaseException raised by scripted task bodies."""
 
 
+class SimBadStr(Exception):
+    """An exception that cannot be printed: str() on it raises."""
+
+    def __str__(self) -> str:
+        raise TypeError("this exception cannot be printed")
+
+
 class SimFault(ConnectionError):
     """Injected transport / storage / hook fault."""
 
@@ -71,6 +78,7 @@ EXC = {
     "SystemExit": SystemExit,
     "SimBaseError": SimBaseError,
     "ZeroDivisionError": ZeroDivisionError,
+    "SimBadStr": SimBadStr,
 }
 
 
